@@ -110,7 +110,8 @@ def _interpret(rc, out, wall):
     if rc == 0 and 'Error' not in out:
         r.ok = True
         return r
-    raise MachineryError("TLC failed (rc=%s):\n%s" % (rc, out[-3000:]))
+    i = out.find('Error:')
+    raise MachineryError("TLC failed (rc=%s):\n%s" % (rc, out[i:i + 3000] if i >= 0 else out[-3000:]))
 
 
 def write_cfg(path, spec=None, init='Init', next_='Next', constants=None, invariants=(), properties=(),
